@@ -26,3 +26,9 @@ Definition attend (dv : nat) (q : list Z) (ks : list (list Z)) (bias : list Z) (
 (* whole attention: every query with its own bias row and mask row *)
 Definition attention (dv : nat) (qs ks vs : list (list Z)) (bias : list (list Z)) (mask : list (list bool)) : list (list Q) :=
   map (fun qbm => attend dv (fst (fst qbm)) ks (snd (fst qbm)) (snd qbm) vs) (combine (combine qs bias) mask).
+
+(* attention as the decode cache uses it: the keys and values cached so far, no bias, nothing masked *)
+Definition att_kv (dv : nat) (q : list Z) (kvs : list (list Z * list Z)) : list Q :=
+  attend dv q (map fst kvs) (repeat 0%Z (length kvs)) (repeat true (length kvs)) (map snd kvs).
+(* row t of the causal mask over T keys *)
+Definition causal_row (t T : nat) : list bool := repeat true (S t) ++ repeat false (T - S t).
